@@ -3,6 +3,8 @@ package main
 import (
 	"context"
 	"fmt"
+	"io"
+	"log/slog"
 	"strconv"
 	"strings"
 	"sync"
@@ -10,7 +12,9 @@ import (
 
 	"reduction.dev/reduction/batching"
 	"reduction.dev/reduction/partitioning"
+	"reduction.dev/reduction/connectors/embedded"
 	"reduction.dev/reduction/proto"
+	"reduction.dev/reduction/proto/jobpb"
 	"reduction.dev/reduction/proto/workerpb"
 	"reduction.dev/reduction/util/murmur"
 	"reduction.dev/reduction/workers/operator"
@@ -192,6 +196,12 @@ func propC05() *lib.Prop {
 					}
 					c.Ops = append(c.Ops, fmt.Sprintf("%s %d %d %d %d", lib.Pick(r, []string{"overlaps", "contains"}), a.Start, a.End, b.Start, b.End))
 				case 8:
+					if r.Chance(1, 3) {
+						// a live operator deployed twice with different operator counts (restart with another worker count)
+						n1, n2 := r.Range(1, 6), r.Range(1, 6)
+						k2 := lib.Pick(r, []int{kgc, kgc, 4, 16, 256})
+						c.Ops = append(c.Ops, fmt.Sprintf("redeploy %d %d %d %d %d %s", k2, n1, r.Intn(n1), n2, r.Intn(n2), hk))
+					}
 					c.Ops = append(c.Ops, fmt.Sprintf("subjkey %d %s", kgc, hk))
 					if n <= 64 {
 						c.Ops = append(c.Ops, fmt.Sprintf("ownsroute %d %d %s", kgc, n, hk))
@@ -235,6 +245,8 @@ func propC05() *lib.Prop {
 					ts := operator.NewTimerStore(nil, partitioning.NewKeySpace(at(1), 1), partitioning.KeyGroupRange{Start: 0, End: 1}, 1024)
 					t, _ := strconv.ParseUint(f[3], 10, 64)
 					out = append(out, lib.Hex(ts.VerifEncodeTimerKey(lib.UnHex(f[2]), time.Unix(0, int64(t)))))
+				case "redeploy":
+					out = append(out, c05Redeploy(at(1), at(2), at(3), at(4), at(5), lib.UnHex(f[6])))
 				case "hashvec":
 					out = append(out, strconv.FormatUint(uint64(murmur.Hash(lib.UnHex(f[1]), at(2))), 10))
 				case "partition":
@@ -325,4 +337,36 @@ func refRanges(kgc, n int) []partitioning.KeyGroupRange {
 		rs[i] = partitioning.KeyGroupRange{Start: st(i), End: st(i + 1)}
 	}
 	return rs
+}
+
+var c05Seq int
+
+// c05Redeploy deploys ONE real operator process twice (as operator i1 of n1, then as operator i2 of n2, same key
+// group count) and reports after each deployment its own range, the group it computes for the key and the group it
+// would persist the key under.
+func c05Redeploy(kgc, n1, i1, n2, i2 int, key []byte) string {
+	slog.SetDefault(slog.New(slog.NewTextHandler(io.Discard, nil)))
+	c05Seq++
+	op := operator.NewOperator(operator.NewOperatorParams{
+		ID: "me", Job: &proto.NoopJob{},
+		NeighborOperatorFactory: func(string, *jobpb.NodeIdentity) proto.Operator { return &proto.UnimplementedOperator{} },
+	})
+	var parts []string
+	for round, cfg := range [][2]int{{n1, i1}, {n2, i2}} {
+		ids := make([]*jobpb.NodeIdentity, cfg[0])
+		for j := range ids {
+			ids[j] = &jobpb.NodeIdentity{Id: fmt.Sprintf("other%d", j), Host: "h"}
+		}
+		ids[cfg[1]] = &jobpb.NodeIdentity{Id: "me", Host: "h"}
+		err := op.HandleDeploy(context.Background(), &workerpb.DeployOperatorRequest{
+			Operators: ids, SourceRunnerIds: []string{"s0"}, KeyGroupCount: int32(kgc),
+			StorageLocation: fmt.Sprintf("memory:///c05-%d-%d", c05Seq, round),
+		}, &embedded.RecordingSink{})
+		if err != nil {
+			return "deploy-error " + strings.ReplaceAll(err.Error(), " ", "_")
+		}
+		own, all, rg, sg := op.VerifKeyLayout(key)
+		parts = append(parts, fmt.Sprintf("%d,%d/%d/%d/%d", own.Start, own.End, len(all), rg, sg))
+	}
+	return strings.Join(parts, ";")
 }
